@@ -69,7 +69,7 @@ NextCT == \E tag \in Tags :
             \/ \E k \in 0..2 : c' = <<"tlv", k, tag>> /\ Emit("CT", TlvModEl("m", k, tag).tree)
             \/ \E inner \in {"echoreq", "flowmod", "groupmod", "pktout", "portmod"} :
                  c' = <<"ba", inner, tag>> /\ Emit("CT", BundleAddEl("m", InnerMsg2(inner, tag), tag).tree)
-            \/ \E inner \in {"setconfig", "flowmod", "pktout"}, dl \in {0, 1, 4, 9} :      \* bundle-add with properties carrying data (frames only: the API cannot build them)
+            \/ \E inner \in {"setconfig", "flowmod", "pktout"}, dl \in {0, 1, 3, 4, 9, 11} :     \* (3, 11: the last property ends unpadded, exactly at the end of the message)      \* bundle-add with properties carrying data (frames only: the API cannot build them)
                  /\ c' = <<"bap", inner, dl, tag>>
                  /\ LET ba == BundleAddEl("m", InnerMsg2(inner, tag), tag).tree
                         pr(i) == [T |-> "BundlePropertyExperimenter", ExperimenterID |-> V(tag + i, 4), ExperimenterType |-> V(tag + i + 1, 4), Data |-> V(tag + i + 2, dl + i - 1)] IN
